@@ -180,7 +180,8 @@ def main(chk: core.Check) -> int:
     chk.coverage["rule"] = "evaluations = change_pivot calls (incl. 20 per track for the finite-difference stencil); entries compared relative to sigma_i*sigma_j at 2e-4"
     chk.assumptions += ["theorems over the reals: wherever the parameter map is differentiable its derivative is the matrix the code uses; the finite-difference oracle has O(h^4) truncation error, tolerance 2e-4",
                         "hand-written model mirrors helix.py after the fix: commits"]
-    chk.prove(modules=["C12", "C11b"])
+    hc.regen(chk)
+    chk.prove(modules=["C12", "C11b", "HelixTie"])
     try:
         diffs = run(chk, n, n_obj)
         if not chk.failing:
